@@ -93,6 +93,8 @@ type Message struct {
 	Enums    []*Enum
 	Extends  []*Extend
 	ExtRange string // e.g. "100 to 199"
+	// OptLines are message options, each rendered as `option <line>;` (no anchors: nothing points at them).
+	OptLines []string
 	// NestedFirst renders nested messages and enums before the fields (so that synthetic map entry
 	// messages come after the declared nested messages in the descriptor).
 	NestedFirst bool
@@ -437,6 +439,9 @@ func renderMessage(ix *index, w *writer, f *File, indent string, m *Message) {
 	in := indent + "  "
 	if m.ExtRange != "" {
 		w.s(in + "extensions " + m.ExtRange + ";\n")
+	}
+	for _, line := range m.OptLines {
+		w.s(in + "option " + line + ";\n")
 	}
 	nested := func() {
 		for _, n := range m.Messages {
